@@ -21,7 +21,7 @@ ASSUMPTIONS = [
     "harness/wire.py (independent codec written from the layout tables) is the reference for layout and for accept/reject",
     "fields are generated inside their wire widths only (the statement's precondition)",
 ]
-BUDGET = {"quick": {"examples": 3200, "shrink": 200}, "thorough": {"examples": 320000, "shrink": 1000}}
+BUDGET = {"quick": {"examples": 16000, "shrink": 200}, "thorough": {"examples": 640000, "shrink": 1000}}
 EXHAUSTIVE = "all 10 message types x 11 return codes x 3 payload classes (fixed cases)"
 
 B16 = [0, 1, 0x7FFF, 0x8000, 0xFFFE, 0xFFFF]
